@@ -411,12 +411,18 @@ def send_tx(
         if total_amount >= amount_to_send:
             break
 
-    recipient_scriptpubkey = bits.script.scriptpubkey(recipient_addr)
-    change_scriptpubkey = (
-        bits.script.scriptpubkey(change_addr)
-        if change_addr
-        else bits.script.scriptpubkey(sender_addr)
-    )
+    def addr_scriptpubkey(addr: bytes) -> bytes:
+        # as for sender_addr above: anything that is not a pubkey or address is a raw scriptpubkey
+        if (
+            bits.is_point(addr)
+            or bits.base58.is_base58check(addr)
+            or bits.is_segwit_addr(addr)
+        ):
+            return bits.script.scriptpubkey(addr)
+        return addr
+
+    recipient_scriptpubkey = addr_scriptpubkey(recipient_addr)
+    change_scriptpubkey = addr_scriptpubkey(change_addr if change_addr else sender_addr)
     txouts = [
         txout(int(amount_to_send - miner_fee), recipient_scriptpubkey),
     ]
